@@ -47,6 +47,12 @@ def run(ctx):
                 # the interpolation points exactly as the code has them (splines.py rounds them to 15 decimals: on a tiny domain they move
                 # by a visible fraction of a cell, even slightly outside the domain; the polynomial pieces extend there)
                 xi = [so.to_int_coord(x, a, h) for x in xg]
+                # the interpolation points of a space lie in its closed domain (periodic spaces wrap them into it)
+                outside = [float(x) for x in xi if x < Fr(sp.br[0]) - Fr(1, 10 ** 5) or x > Fr(sp.br[-1]) + Fr(1, 10 ** 5)]
+                if outside:
+                    ctx.violation(dict(sig0, kind="interpolation-point-outside-domain"),
+                                  "interpolation points %s (in cell units) of the space %s lie outside its domain [%d, %d]" % (outside, sp.key(), sp.br[0], sp.br[-1]),
+                                  {"space": sp.key(), "periodic": periodic, "map": [a, h]})
                 M = colloc(sp, xi, periodic)
                 cond = float(np.linalg.cond(M))
                 if cond > 1e8:
